@@ -14,6 +14,8 @@
 import BlocV.Proofs.Lemmas.OpsCases
 import BlocV.Proofs.Lemmas.BuiltinCases
 import BlocV.Proofs.Lemmas.Typing
+import BlocV.Proofs.Lemmas.TypeSound
+import BlocV.Model.Stepwise
 
 namespace BlocV.C02
 open BlocV Num
@@ -579,6 +581,249 @@ theorem safety_table_major_fails :
     (checkList [] 10 [] [] [.letS "$T" (.call "tab" [.lit (.int 2), .lit (.int 1)]),
                             .letS "$T" (.call "tab" [.lit (.int 1), .lit (.str [97])])]).toOption.bind (curOf · "$T")
       = some { major := .str, level := 1 } := by
+  decide +kernel
+
+
+/-! ### Expressions: the static type of the whole tree is the type of every value it evaluates to
+
+`typeOfExpr` (Model/Interp.lean) is `Expression::type()` in parsing mode over the symbol table `tab`; `eval` is
+`Expression::value()`. Fragment (`C02T.opFrag`): literals, variables, the 4 unary and all 20 binary operators, lazy `and` /
+`or` included, nested to any depth. Excluded, exactly: evaluations that pass through the recorded gap region of `- * / ** %`
+at a node they really evaluate (`C02T.gapHit`, the run-time trace of `binTypeGap`; inside it the node's value contradicts
+its static type, `bin_type_gap_exact`). -/
+
+theorem defined_or_none (t : Ty) : t.defined = true ∨ t.major = .none := by
+  unfold Ty.defined
+  by_cases h : t.major = .none
+  · exact Or.inr h
+  · exact Or.inl (by simpa using h)
+
+open BlocV.C02T BlocV.Lemmas in
+/-- **Static type = run-time type, whole expressions.** For every expression of the fragment, every symbol table, every store
+that agrees with it (`StoreOk`), every evaluation fuel and typing depth: if the evaluation yields a value without passing
+through `binTypeGap`, and the parser's type of the expression is defined (non-opaque), the value has EXACTLY that type
+(major, minor, level). By induction over the evaluation; the node steps are `un_type_sound` and
+`bin_type_sound_static_partial`.
+`_partial`: the full statement (all of `Expr`) leaves out built-in calls (16 have the node theorem
+`builtin_type_sound_partial`; missing is the transfer of the monad-generic built-in bodies from `Res` to `EvalM`), members, and
+functor calls (FALSE there: the declared return type is not enforced). Inside `gapHit` it is false:
+`expr_type_sound_fails`. -/
+theorem expr_type_sound_partial (funcs : List Func) (tab : List (String × Ty)) (depth : Nat) :
+    ∀ (fuel : Nat) (e : Expr) (tf : Nat) (s s' : St) (v : Val), opFrag e = true → litsWf e = true → StoreOk tab s →
+      gapHit funcs tab depth fuel tf e s = false → eval funcs depth fuel e s = (.ok v, s') →
+      (typeOfExpr funcs tab tf e).defined = true → v.type = typeOfExpr funcs tab tf e
+  | 0, e, tf, s, s', v, _, _, _, _, h, _ => by rw [eval_zero] at h; cases h
+  | fuel + 1, e, 0, s, s', v, _, _, _, _, _, hd => by simp [typeOfExpr, Ty.defined, Ty.none] at hd
+  | fuel + 1, e, tf + 1, s, s', v, hfr, hl, hs, hg, h, hd => by
+    have ih := expr_type_sound_partial funcs tab depth fuel
+    have pure_ := eval_frag_pure funcs depth tab fuel
+    cases e
+    case lit v0 =>
+      rw [eval_lit] at h; cases h
+      simp [typeOfExpr]
+    case var n =>
+      rw [eval_var] at h
+      have hr : readVar s n = .ok (lookupVar s.vars n) := by simp [readVar, hs.noIter]
+      rw [hr] at h; cases h
+      simp only [typeOfExpr] at hd ⊢
+      cases hf : (tab.find? (·.1 == n)).map (·.2) with
+      | none => rw [hf] at hd; simp [Ty.defined, Ty.none] at hd
+      | some t => rw [hf] at hd; exact hs.typed n t hf hd
+    case un op a =>
+      rw [eval_un] at h
+      obtain ⟨va, s1, ha, hk⟩ := andThen_ok h
+      simp only [opFrag] at hfr
+      simp only [litsWf] at hl
+      obtain ⟨rfl, hwa⟩ := pure_ a s s1 va hfr hl hs ha
+      simp only [Prod.mk.injEq] at hk
+      obtain ⟨hv, _⟩ := hk
+      simp only [gapHit] at hg
+      have hnode := un_type_sound op va v hwa hv
+      simp only [typeOfExpr] at hd ⊢
+      rw [hnode]
+      cases op
+      case neg => simp only [typeUn] at hd ⊢; exact ih a tf _ _ va hfr hl hs hg ha hd
+      case pos => simp only [typeUn] at hd ⊢; exact ih a tf _ _ va hfr hl hs hg ha hd
+      case not => rfl
+      case bnot => rfl
+    case bin op a b =>
+      simp only [opFrag, Bool.and_eq_true] at hfr
+      simp only [litsWf, Bool.and_eq_true] at hl
+      simp only [typeOfExpr] at hd ⊢
+      -- what the induction gives for an operand that was evaluated
+      have operand : ∀ (x : Expr) (vx : Val), opFrag x = true → litsWf x = true → gapHit funcs tab depth fuel tf x s = false →
+          eval funcs depth fuel x s = (.ok vx, s) →
+          (typeOfExpr funcs tab tf x).major = vx.type.major ∨ (typeOfExpr funcs tab tf x).major = .none := by
+        intro x vx h1 h2 h3 h4
+        rcases defined_or_none (typeOfExpr funcs tab tf x) with hdx | hn
+        · exact Or.inl (by rw [ih x tf s s vx h1 h2 hs h3 h4 hdx])
+        · exact Or.inr hn
+      by_cases hb : op = .band
+      · subst hb
+        rw [eval_band] at h
+        obtain ⟨va, s1, ha, hk⟩ := andThen_ok h
+        obtain ⟨rfl, hwa⟩ := pure_ a s s1 va hfr.1 hl.1 hs ha
+        simp only [gapHit, okVal, ha, Bool.or_eq_false_iff] at hg
+        have hs1 := operand a va hfr.1 hl.1 hg.1 ha
+        by_cases hforced : forcedBand va = true
+        · rw [if_pos hforced] at hk
+          obtain ⟨vb, s2, hb, hk2⟩ := andThen_ok hk
+          obtain ⟨rfl, hwb⟩ := pure_ b s1 s2 vb hfr.2 hl.2 hs hb
+          simp only [Prod.mk.injEq] at hk2
+          have hg2 := hg.2
+          simp [hforced, okVal, hb] at hg2
+          have hs2 := operand b vb hfr.2 hl.2 hg2.1 hb
+          exact bin_type_sound .band (by decide) _ _ va vb v false hwa hwb hs1 hs2 hk2.1 hd
+        · rw [if_neg hforced] at hk
+          simp only [Prod.mk.injEq] at hk
+          have := bin_type_sound .band (by decide) (typeOfExpr funcs tab tf a) Ty.none va (.null Ty.none) v false hwa rfl hs1
+            (Or.inr rfl) hk.1 rfl
+          rw [this]; rfl
+      · by_cases ho : op = .bior
+        · subst ho
+          rw [eval_bior] at h
+          obtain ⟨va, s1, ha, hk⟩ := andThen_ok h
+          obtain ⟨rfl, hwa⟩ := pure_ a s s1 va hfr.1 hl.1 hs ha
+          simp only [gapHit, okVal, ha, Bool.or_eq_false_iff] at hg
+          have hs1 := operand a va hfr.1 hl.1 hg.1 ha
+          by_cases hforced : forcedBior va = true
+          · rw [if_pos hforced] at hk
+            obtain ⟨vb, s2, hb', hk2⟩ := andThen_ok hk
+            obtain ⟨rfl, hwb⟩ := pure_ b s1 s2 vb hfr.2 hl.2 hs hb'
+            simp only [Prod.mk.injEq] at hk2
+            have hg2 := hg.2
+            simp [hforced, okVal, hb'] at hg2
+            have hs2 := operand b vb hfr.2 hl.2 hg2.1 hb'
+            exact bin_type_sound .bior (by decide) _ _ va vb v false hwa hwb hs1 hs2 hk2.1 hd
+          · rw [if_neg hforced] at hk
+            simp only [Prod.mk.injEq] at hk
+            have := bin_type_sound .bior (by decide) (typeOfExpr funcs tab tf a) Ty.none va (.null Ty.none) v false hwa rfl hs1
+              (Or.inr rfl) hk.1 rfl
+            rw [this]; rfl
+        · rw [eval_bin funcs depth fuel op hb ho] at h
+          obtain ⟨va, s1, ha, hk⟩ := andThen_ok h
+          obtain ⟨rfl, hwa⟩ := pure_ a s s1 va hfr.1 hl.1 hs ha
+          obtain ⟨vb, s2, hb', hk2⟩ := andThen_ok hk
+          obtain ⟨rfl, hwb⟩ := pure_ b s1 s2 vb hfr.2 hl.2 hs hb'
+          simp only [Prod.mk.injEq] at hk2
+          have hnb : (op == BinOp.band) = false := by simpa using hb
+          have hno : (op == BinOp.bior) = false := by simpa using ho
+          simp only [gapHit, okVal, ha, hb', hnb, hno, Bool.false_and, Bool.or_self, Bool.false_eq_true, if_false,
+            Bool.or_eq_false_iff] at hg
+          have hs1 := operand a va hfr.1 hl.1 hg.1 ha
+          have hs2 := operand b vb hfr.2 hl.2 hg.2.1 hb'
+          exact bin_type_sound_static_partial op _ _ va vb v _ hwa hwb hs1 hs2 hk2.1 hd hg.2.2
+    all_goals simp [opFrag] at hfr
+
+def exTsTab : List (String × Ty) := [("X", Ty.int), ("B", Ty.bool)]
+def exTsSt : St := { vars := [("X", .int 5), ("B", .null Ty.bool)] }
+/-- `(X + 2) * 3 < 10 and not B` -/
+def exTsExpr : Expr :=
+  .bin .band (.bin .lt (.bin .mul (.bin .add (.var "X") (.lit (.int 2))) (.lit (.int 3))) (.lit (.int 10))) (.un .bnot (.var "B"))
+
+open BlocV.C02T in
+/-- hypotheses satisfiable, non-trivially: X an integer, B a boolean null; the value is the boolean `false` -/
+example : opFrag exTsExpr = true ∧ litsWf exTsExpr = true ∧ gapHit [] exTsTab 0 20 20 exTsExpr exTsSt = false ∧
+    typeOfExpr [] exTsTab 20 exTsExpr = Ty.bool ∧ (okVal (eval [] 0 20 exTsExpr exTsSt)).map (fun v => (v == Val.bool false, v.type)) = some (true, Ty.bool) := by
+  decide +kernel
+
+def exGapTab : List (String × Ty) := [("X", Ty.none)]
+def exGapSt : St := { vars := [("X", .int 5)] }
+def exGapExpr : Expr := .bin .sub (.var "X") (.lit (.int 3))
+
+open BlocV.C02T in
+/-- **Inside the excluded region the statement is false** (the recorded gap, at expression-tree level): with `X` opaque to the
+parser and holding the integer 5, `X - 3` has the defined static type decimal and evaluates to the integer 2; `gapHit` is
+exactly what flags it. -/
+theorem expr_type_sound_fails :
+    opFrag exGapExpr = true ∧ litsWf exGapExpr = true ∧ gapHit [] exGapTab 0 5 5 exGapExpr exGapSt = true ∧
+      typeOfExpr [] exGapTab 5 exGapExpr = Ty.num ∧ (okVal (eval [] 0 5 exGapExpr exGapSt)).map (fun v => (v == Val.int 2, v.type)) = some (true, Ty.int) := by
+  decide +kernel
+
+
+/-! ### One unit vs one statement at a time (Model/Stepwise.lean)
+
+`Stepwise.runBatch` compiles the whole text against the symbol table the parser derives from the TEXT and runs it;
+`Stepwise.runStepwise` compiles each top-level statement against the table of the CURRENT values, runs it, and goes on. Both
+are executed against the library on every generated program (`src` / `srcstep` vs probe ops `prog` / `step`). -/
+
+open BlocV.C02T BlocV.Stepwise in
+/-- The static type of an operator-fragment expression depends only on the table entries of the variables it reads. -/
+theorem typeOf_stable (funcs : List Func) (t1 t2 : List (String × Ty)) : ∀ (f : Nat) (e : Expr), opFrag e = true →
+    (∀ n ∈ varsOf e, t1.find? (·.1 == n) = t2.find? (·.1 == n)) → typeOfExpr funcs t1 f e = typeOfExpr funcs t2 f e
+  | 0, e, _, _ => by simp [typeOfExpr]
+  | f + 1, e, hfr, h => by
+    have ih := typeOf_stable funcs t1 t2 f
+    cases e
+    case lit v => simp [typeOfExpr]
+    case var n => simp only [typeOfExpr]; rw [h n (by simp [varsOf])]
+    case un op a =>
+      simp only [opFrag] at hfr
+      simp only [typeOfExpr]; rw [ih a hfr (fun n hn => h n (by simpa [varsOf] using hn))]
+    case bin op a b =>
+      simp only [opFrag, Bool.and_eq_true] at hfr
+      simp only [typeOfExpr]
+      rw [ih a hfr.1 (fun n hn => h n (by simp [varsOf, hn])), ih b hfr.2 (fun n hn => h n (by simp [varsOf, hn]))]
+    all_goals simp [opFrag] at hfr
+
+open BlocV.C02T BlocV.Stepwise in
+/-- **One unit and statement-at-a-time compile an expression alike wherever they see the same symbols.** For every expression
+of the operator fragment and any two symbol tables — `t1` the one `Parser::parse` has built from the text so far, `t2` the one
+of the current values — that agree on the variables the expression reads: same static type, same verdict (accepted, or the same
+ParseError). Hence a statement can be accepted as one unit and refused statement by statement (or vice versa) only if it reads
+a symbol whose static type differs from the type of the value it holds — with the type-soundness theorems above: a symbol that
+is OPAQUE to the parser (function declared `return undefined`, untyped parameter, `null`) or lies in a recorded gap region.
+`_partial`: the full statement "`runBatch` ends without error ⇒ `runStepwise` gives the same output, without error" is FALSE
+(`stepwise_eq_batch_fails`); for programs outside that region, not proved is the execution half — that the typed-null slots
+`runProgram` creates up front for symbols of LATER statements (`mainDecls`) are never read before their statement is compiled
+(a frame property of the whole mutual interpreter). The correspondence runs both runners against the library instead. -/
+theorem stepwise_eq_batch_partial (funcs : List Func) (t1 t2 : List (String × Ty)) : ∀ (f : Nat) (e : Expr), opFrag e = true →
+    (∀ n ∈ varsOf e, t1.find? (·.1 == n) = t2.find? (·.1 == n)) →
+    typeOfExpr funcs t1 100 e = typeOfExpr funcs t2 100 e ∧ acceptExpr funcs t1 f e = acceptExpr funcs t2 f e
+  | 0, e, hfr, h => ⟨typeOf_stable funcs t1 t2 100 e hfr h, by simp [acceptExpr]⟩
+  | f + 1, e, hfr, h => by
+    refine ⟨typeOf_stable funcs t1 t2 100 e hfr h, ?_⟩
+    have ih := stepwise_eq_batch_partial funcs t1 t2 f
+    cases e
+    case lit v => simp [acceptExpr]
+    case var n => simp only [acceptExpr]; rw [h n (by simp [varsOf])]
+    case un op a =>
+      simp only [opFrag] at hfr
+      have ha := ih a hfr (fun n hn => h n (by simpa [varsOf] using hn))
+      simp only [acceptExpr]; rw [ha.1, ha.2]
+    case bin op a b =>
+      simp only [opFrag, Bool.and_eq_true] at hfr
+      have ha := ih a hfr.1 (fun n hn => h n (by simp [varsOf, hn]))
+      have hb := ih b hfr.2 (fun n hn => h n (by simp [varsOf, hn]))
+      simp only [acceptExpr]; rw [ha.1, ha.2, hb.1, hb.2]
+    all_goals simp [opFrag] at hfr
+
+/-- `function f() return undefined is begin return 1; end; x = f(); if false then y = x + "a"; end if; print 7;` -/
+def exDeadProg : List Stmt :=
+  [.funcS "F" [] Ty.none [.returnS (some (.lit (.int 1)))] [],
+   .letS "X" (.fcall "F" []),
+   .ifS [(some (.lit (.bool false)), [.letS "Y" (.bin .add (.var "X") (.lit (.str [97])))])],
+   .printS [.lit (.int 7)]]
+
+open BlocV.Stepwise in
+/-- **The full statement is false** (model and C++ alike; witness run on the pinned build through `prog` and `step`, finding
+C02.stepwise_dead_branch_typed_from_value): as one unit the program compiles (`X` is opaque: `X + "a"` is accepted) and runs
+without error, printing 7; statement by statement `X` holds the integer 1 when the IF statement is compiled, and the dead
+branch `Y = X + "a"` is a TYPE_MISMATCH. The two symbol tables differ exactly on the variable the expression reads. -/
+theorem stepwise_eq_batch_fails :
+    (runBatch 50 exDeadProg).outcome.ranOk = true ∧ (runBatch 50 exDeadProg).st.output = [55, 10] ∧
+    (runStepwise 50 exDeadProg).outcome.perrCode = some Gen.EXC_PARSE_TYPE_MISMATCH_S ∧
+    (runStepwise 50 exDeadProg).st.output = [] ∧
+    typeOfExpr (collectFuncs exDeadProg) [("X", Ty.none)] 100 (.bin .add (.var "X") (.lit (.str [97]))) = Ty.none ∧
+    acceptExpr (collectFuncs exDeadProg) [("X", Ty.none)] 10 (.bin .add (.var "X") (.lit (.str [97]))) = none ∧
+    acceptExpr (collectFuncs exDeadProg) [("X", Ty.int)] 10 (.bin .add (.var "X") (.lit (.str [97]))) = some Gen.EXC_PARSE_TYPE_MISMATCH_S := by
+  decide +kernel
+
+open BlocV.C02T BlocV.Stepwise in
+/-- hypotheses of `stepwise_eq_batch_partial` satisfiable: the tables differ elsewhere (`Z`), agree on what `X + 1 < Y` reads -/
+example : opFrag (.bin .lt (.bin .add (.var "X") (.lit (.int 1))) (.var "Y")) = true ∧
+    (∀ n ∈ varsOf (.bin .lt (.bin .add (.var "X") (.lit (.int 1))) (.var "Y")),
+      [("X", Ty.int), ("Y", Ty.num), ("Z", Ty.none)].find? (·.1 == n) = [("X", Ty.int), ("Y", Ty.num), ("Z", Ty.str)].find? (·.1 == n)) := by
   decide +kernel
 
 end BlocV.C02
